@@ -283,6 +283,13 @@ def decode_goes_through_resolve(chk: Check, repo: Repo, classes: dict) -> None:
                 chk.ob("decoding-goes-through-resolve", fi.site(c), ok, detail, key="resolve|cemi")
     if not found:
         raise AnalysisError("CEMILData.from_knx: no tpci= construction found")
+    # the mirror on the way out: every frame the library serialises carries the octet its PDU's to_knx() gives - on
+    # every path, for every PDU kind (a merge that is skipped for some kinds sends those as another PDU)
+    tk = repo.func("xknx.cemi.cemi_frame", "CEMILData.to_knx")
+    chk.unit(tk)
+    tc = CFG(tk.node)
+    enc = [n.id for n in tc.nodes if n.ast is not None and n.kind in ("stmt", "test") and any(isinstance(c, ast.Call) and call_name(c) == "self.tpci.to_knx" for c in ast.walk(n.ast))]
+    chk.ob("encoding-goes-through-to_knx", tk.site(), bool(enc) and tc.all_paths_hit(tc.entry, enc, ends=[tc.exit]), f"CEMILData.to_knx: {len(enc)} statements put self.tpci.to_knx() into the frame; " + ("every path to the return passes one" if enc and tc.all_paths_hit(tc.entry, enc, ends=[tc.exit]) else "some path returns a frame without the PDU's control octet"), key="to_knx|cemi")
     # nobody else constructs a transport PDU while parsing: TPCI classes are instantiated only in resolve, and where the
     # library builds outgoing telegrams (not in any from_knx)
     for f in repo.all_functions():
